@@ -166,11 +166,40 @@ def r5_formatters(rep, facts):
         if hook in ovs[a] and hook in ovs[b]:
             x, y = summary(ovs[a][hook]), summary(ovs[b][hook])
             rep.check(R, hook, x == y, f'{x}', f'`{hook}` differs: DocumentFormatter {x}, Pretty {y}')
+    # the implicit-table rule itself: a table's header is hidden exactly when the table has entries of any kind (`!node.is_empty()` on the
+    # visited table): an empty table keeps its header, because it is only visible through it
+    from .shared import conditions_above
+    for ty in (a, b):
+        d = ovs[ty].get('visit_table_mut')
+        if d is None:
+            continue
+        bb = facts.body(d)
+        params = [p.get('name') for p in bb.get('params', []) if p.get('k') == 'p_bind']
+        sets = [n for n in walk(bb['body']) if n.get('k') == 'mcall' and n.get('name') == 'set_implicit']
+        ok = len(sets) == 1
+        how = f'{len(sets)} set_implicit call(s)'
+        if ok:
+            conds = conditions_above(bb['body'], sets[0])
+            arg = peel(sets[0]['args'][0]) if sets[0].get('args') else {}
+            ok = len(conds) == 1 and arg.get('k') == 'lit' and arg.get('v') is True
+            if ok:
+                c = peel(conds[0])
+                inner = peel(c.get('a', {})) if c.get('k') == 'unary' and c.get('op') == '!' else {}
+                recv = peel(inner.get('recv', {})) if inner.get('k') == 'mcall' and inner.get('name') == 'is_empty' else {}
+                ok = recv.get('k') == 'path' and recv.get('path') in params
+                how = 'set_implicit(true) under `!node.is_empty()`' if ok else 'set_implicit(true) under a different condition'
+        rep.check(R, f'{ty}|implicit-iff-non-empty', ok, how, f'`{last_seg(ty)}::visit_table_mut`: {how}; the header of a table is hidden on another condition than '
+                  f'"the table has entries", so an empty table disappears from the pretty output (or a header that carries values is hidden)', facts.loc(bb))
 
 
 def rules(rep, facts):
     if 'toml' in facts.crates and facts.has_method('serde::ser::Serialize', 'toml::value::Value', 'serialize'):
         r1_passes(rep, facts)
+    if 'toml' in facts.crates:
+        from .rules_c16 import map_identity
+        R6 = rep.rule('C17/R6', 'the decoded text equals the value whatever order the serializer emitted the entries in: equality of toml::Map is the '
+                      'backing map\'s own equality (order-insensitive for IndexMap under preserve_order)', floor=1)
+        map_identity(rep, R6, facts)
     feats = set(facts.crates.get('toml_edit', {}).get('features', []))
     if 'toml_edit' in facts.crates and 'display' in feats:
         from .rules_c06 import r3_values_first, r4_purity
